@@ -3,6 +3,7 @@ package pipeline
 import (
 	"fmt"
 	"go/ast"
+	"go/token"
 	"slices"
 	"strings"
 
@@ -209,10 +210,17 @@ func (p *GleecePipeline) appendRouteImports(imports map[string]MapSet.Set[string
 			imports[retValPkgPath] = MapSet.NewSet[string]()
 		}
 
+		retValTypeName := common.UnwrapArrayTypeString(retVal.Name)
+		if !token.IsIdentifier(retValTypeName) {
+			// A composite such as map[string]int has no package of its own and its spelling cannot be
+			// part of an import alias; emitting one leaves the routes file unparsable
+			continue
+		}
+
 		retValImportName := fmt.Sprintf(
 			"Response%d%s",
 			retVal.UniqueImportSerial,
-			common.UnwrapArrayTypeString(retVal.Name),
+			retValTypeName,
 		)
 		imports[retValPkgPath].Add(retValImportName)
 	}
